@@ -1,6 +1,7 @@
 package govc
 
 import (
+	"sort"
 	"fmt"
 	"go/ast"
 	"go/token"
@@ -1044,6 +1045,37 @@ func (fv *funcVerifier) finishExits() {
 	if len(fv.exits) == 0 {
 		return
 	}
+	// a function-level local that is not yet declared at some return has an arbitrary value
+	// there, so that postconditions may mention it (guarded by the path, e.g. err == nil)
+	if fv.spec != nil && fv.fi.Decl != nil && fv.fi.Decl.Type != nil {
+		if top := fv.info.Scopes[fv.fi.Decl.Type]; top != nil {
+			all := map[*types.Var]bool{}
+			for _, ex := range fv.exits {
+				for v := range ex.vars {
+					if v.Parent() == top && v.Name() != "" && v.Name() != "_" {
+						all[v] = true
+					}
+				}
+			}
+			var vs []*types.Var
+			for v := range all {
+				vs = append(vs, v)
+			}
+			sort.Slice(vs, func(i, j int) bool { return vs[i].Pos() < vs[j].Pos() })
+			for _, v := range vs {
+				for _, ex := range fv.exits {
+					if _, ok := ex.vars[v]; !ok && !ex.dead() {
+						if fv.boxed[v] {
+							// address-taken local: an arbitrary box
+							ex.vars[v] = fv.c.Fresh("undeclbox_"+v.Name(), smt.Int)
+							continue
+						}
+						ex.vars[v] = fv.c.Fresh("undecl_"+v.Name(), fv.so.sortOf(v.Type()))
+					}
+				}
+			}
+		}
+	}
 	exit := fv.mergeAll(fv.exits[0], fv.exits[1:])
 	fv.exit = exit
 	if fv.opt.Canary {
@@ -1059,8 +1091,12 @@ func (fv *funcVerifier) finishExits() {
 	// function-level locals that are live at every exit may be mentioned in postconditions
 	// (parameters keep denoting their entry values)
 	for v, t := range exit.vars {
-		if v.Name() == "" || v.Name() == "_" || fv.isParam(v) || fv.boxed[v] || fv.volatile[v] {
+		if v.Name() == "" || v.Name() == "_" || fv.isParam(v) || fv.volatile[v] {
 			continue
+		}
+		if fv.boxed[v] {
+			// address-taken local: its value lives in the box
+			t = fv.loadAt(exit, t, v.Type())
 		}
 		if _, taken := env.vars[v.Name()]; !taken {
 			env.vars[v.Name()] = sval{t, v.Type()}
